@@ -9,8 +9,8 @@ Local Open Scope Z_scope.
    patterns, text as the bytes of the C string without its terminator *)
 Inductive argval : Type := VI (z:Z) | VD (bits:Z) | VF (bits:Z) | VT (t:list Z).
 
-(* double-valued operands: an argument, a literal, the result of read number k *)
-Inductive dexpr : Type := DArg (a:nat) | DConst (bits:Z) | DSlot (k:nat).
+(* double-valued operands: an argument, a literal, the result of read number k, IEEE sums and differences of those *)
+Inductive dexpr : Type := DArg (a:nat) | DConst (bits:Z) | DSlot (k:nat) | DAdd (a b:dexpr) | DSub (a b:dexpr).
 
 (* integer expressions: exact integers with explicit C conversions (ECast width signed), as clang's AST shows them *)
 Inductive iexpr : Type :=
@@ -28,6 +28,7 @@ Inductive iexpr : Type :=
 | ELNot (a:iexpr)                   (* a == 0 *)
 | EEq (a b:iexpr) | ENe (a b:iexpr) | ELt (a b:iexpr) | ELe (a b:iexpr)
 | ECond (c a b:iexpr)
+| EDLt (a b:dexpr) | EDLe (a b:dexpr) | EDEq (a b:dexpr)      (* comparisons of doubles (false when an operand is NaN) *)
 | ED2I (w:Z) (s:bool) (d:dexpr).    (* double converted to a w-bit integer type: truncation; undefined outside the type's range *)
 
 (* ---- setters ---- *)
@@ -36,13 +37,18 @@ Inductive wstmt : Type :=
 | WSeq (a b:wstmt)
 | WInt (n:nat) (e:iexpr)                          (* AddByte / Add2ByteInt / Add2ByteUInt / Add3ByteInt / Add4ByteUInt / AddUInt64 *)
 | WDouble (n:nat) (s:bool) (pbits:Z) (d:dexpr)    (* AddNByte[U]Double(d, precision) with the default UndefVal *)
+| WDoubleRaw (n:nat) (s:bool) (pbits:Z) (d:dexpr) (* SetBufNByte[U]Double(d, precision): no "not available" test *)
 | WStr (len:Z) (a:nat)                            (* AddStr(text a, len): fixed length, filled with 0xff *)
 | WAISStr (len:Z) (a:nat)                         (* AddAISStr(text a, len): upper case 6 bit alphabet, filled with '@' *)
 | WVarStr (maxlen:Z) (a:nat)                      (* AddVarStr(text a, maxlen, ...) for ASCII text: length, type 1, characters *)
 | WList (n:nat) (a:nat)                           (* for each element of the zero-terminated list a: an n-byte integer field *)
 | WIf (c:iexpr) (t e:wstmt).
 
-Record setter : Type := { s_pgn : Z; s_prio : Z; s_dest : option iexpr; s_body : wstmt }.
+(* C types of the arguments (from clang): integers with width and signedness (bool = 1 bit, enumerations = the range of their
+   enumeration values), doubles, text / lists *)
+Inductive argty : Type := TInt (w:Z) (s:bool) | TDbl | TTxt.
+
+Record setter : Type := { s_pgn : Z; s_prio : Z; s_dest : option iexpr; s_args : list argty; s_body : wstmt }.
 
 (* ---- parsers ---- *)
 Inductive rd : Type :=
